@@ -122,6 +122,93 @@ theorem pad_crop_identity_cube [Zero K] (a : Cube K) (S0 S1 k i j : Int) (hS0 : 
 example : (pad2 (⟨3, 2, fun i j => 10 * i + j + 1⟩ : Arr Int) 4 5).get 2 2 = 12 := by decide
 example : (pad2 (⟨4, 5, fun i j => 10 * i + j + 1⟩ : Arr Int) 3 2).get 1 1 = 23 := by decide
 
+/-! ## `util.window` (decision tree regenerated from the source: `Gen.windowAct`) -/
+
+/-- **the dispatch of `util.window`**, for all arguments: a one-element input is returned unchanged whatever `shape` and `slice`
+are; with neither argument the input is returned; with `slice` the view `img[s0:s1, s2:s3]` is returned — when `shape` is given
+too, only if `s1 - s0 = shape[0]` and `s3 - s2 = shape[1]` (otherwise `AssertionError`); with `shape` alone the input goes to
+`lentil.pad`. It never falls off the end. -/
+theorem window_dispatch (size : Int) (shNone slNone : Bool) (sh : Int × Int) (sl : Int × Int × Int × Int) :
+    Gen.windowAct size shNone slNone sh sl =
+      if size = 1 then .whole
+      else if slNone = false then
+        (if shNone = true ∨ (sl.2.1 - sl.1 = sh.1 ∧ sl.2.2.2 - sl.2.2.1 = sh.2)
+         then .view sl.1 sl.2.1 sl.2.2.1 sl.2.2.2 else .refuse)
+      else if shNone = true then .whole else .pad sh.1 sh.2 := by
+  unfold Gen.windowAct
+  by_cases h1 : size = 1
+  · simp [h1]
+  · cases shNone <;> cases slNone <;> simp [h1]
+    by_cases ha : sl.2.1 - sl.1 = sh.1 <;> by_cases hb : sl.2.2.2 - sl.2.2.1 = sh.2 <;> simp [ha, hb]
+
+/-- `window(img, shape=S)` **is the centred crop/pad**: the result has shape `S` and every sample keeps its coordinate relative
+to the origin `⌊n/2⌋` (samples outside the source are zero) — the centre convention of `pad` carried through the dispatch -/
+theorem window_shape_keeps_origin [Zero K] (a : Arr K) (S0 S1 : Int) (h0 : 0 ≤ a.s0) (h1 : 0 ≤ a.s1) (hs : a.s0 * a.s1 ≠ 1) :
+    ∃ r, window a (some (S0, S1)) none = .ok r ∧ r.s0 = S0 ∧ r.s1 = S1 ∧
+      ∀ i j, 0 ≤ i ∧ i < S0 → 0 ≤ j ∧ j < S1 → r.get i j = a.centred (i - S0 / 2) (j - S1 / 2) := by
+  refine ⟨pad2 a S0 S1, ?_, rfl, rfl, fun i j hi hj => pad_keeps_origin a S0 S1 i j h0 h1 hi hj⟩
+  unfold window
+  rw [window_dispatch]
+  simp [hs]
+
+/-- `window(img, slice=(r0, r1, c0, c1))` for a slice inside the array **is exactly the requested index set**: shape
+`(r1 - r0, c1 - c0)`, sample `(i, j)` = source sample `(r0 + i, c0 + j)`; when `shape` is given as well the call succeeds iff the
+shape equals the slice's extent (and the result then has that shape) -/
+theorem window_slice_indices [Zero K] (a : Arr K) (r0 r1 c0 c1 : Int) (hs : a.s0 * a.s1 ≠ 1)
+    (hr : 0 ≤ r0 ∧ r0 ≤ r1 ∧ r1 ≤ a.s0) (hc : 0 ≤ c0 ∧ c0 ≤ c1 ∧ c1 ≤ a.s1) :
+    (∃ r, window a none (some (r0, r1, c0, c1)) = .ok r ∧ r.s0 = r1 - r0 ∧ r.s1 = c1 - c0 ∧
+      ∀ i j, r.get i j = a.get (r0 + i) (c0 + j)) ∧
+    ∀ S0 S1 : Int,
+      (r1 - r0 = S0 ∧ c1 - c0 = S1 →
+        window a (some (S0, S1)) (some (r0, r1, c0, c1)) = window a none (some (r0, r1, c0, c1))) ∧
+      (¬ (r1 - r0 = S0 ∧ c1 - c0 = S1) →
+        window a (some (S0, S1)) (some (r0, r1, c0, c1)) = .error "AssertionError") := by
+  have b0 : sliceBound a.s0 r0 = r0 := by unfold sliceBound; split <;> split <;> omega
+  have e0 : sliceBound a.s0 r1 = r1 := by unfold sliceBound; split <;> split <;> omega
+  have b1 : sliceBound a.s1 c0 = c0 := by unfold sliceBound; split <;> split <;> omega
+  have e1 : sliceBound a.s1 c1 = c1 := by unfold sliceBound; split <;> split <;> omega
+  refine ⟨⟨viewSlice a r0 r1 c0 c1, ?_, ?_, ?_, ?_⟩, fun S0 S1 => ⟨?_, ?_⟩⟩
+  · unfold window; rw [window_dispatch]; simp [hs]
+  · simp only [viewSlice, b0, e0]; split <;> omega
+  · simp only [viewSlice, b1, e1]; split <;> omega
+  · intro i j; simp only [viewSlice, b0, b1]
+  · intro h; unfold window; rw [window_dispatch, window_dispatch]; simp [hs, h.1, h.2]
+  · intro h; unfold window; rw [window_dispatch]; simp [hs]
+    rw [if_neg h]
+
+/-- a one-element input, and a call with neither `shape` nor `slice`, return the input unchanged -/
+theorem window_passthrough [Zero K] (a : Arr K) (shape : Option (Int × Int)) (slice : Option (Int × Int × Int × Int)) :
+    (a.s0 * a.s1 = 1 → window a shape slice = .ok a) ∧ window a none none = .ok a := by
+  constructor
+  · intro h; unfold window; rw [window_dispatch]; simp [h]
+  · unfold window; rw [window_dispatch]; simp
+
+/-- cubes with `shape=`: every slice along the first axis is cropped/padded about its own origin `⌊n/2⌋`, the depth is kept -/
+theorem window3_shape_keeps_origin [Zero K] (a : Cube K) (S0 S1 : Int) (h0 : 0 ≤ a.s0) (h1 : 0 ≤ a.s1) (hs : a.d * a.s0 * a.s1 ≠ 1) :
+    ∃ r, window3Shape a S0 S1 = .ok r ∧ r.d = a.d ∧ r.s0 = S0 ∧ r.s1 = S1 ∧
+      ∀ k i j, 0 ≤ i ∧ i < S0 → 0 ≤ j ∧ j < S1 → r.get k i j = a.centred k (i - S0 / 2) (j - S1 / 2) := by
+  refine ⟨pad3 a S0 S1, ?_, rfl, rfl, rfl, fun k i j hi hj => (pad3_keeps_origin a S0 S1 k i j h0 h1 hi hj).2.2.2⟩
+  unfold window3Shape
+  rw [window_dispatch]
+  simp [hs]
+
+example : (window (⟨3, 4, fun i j => 10 * i + j⟩ : Arr Int) none (some (1, 3, 1, 4))).toOption.map (fun r => (r.s0, r.s1, r.get 0 0)) =
+    some (2, 3, 11) := by decide
+example : (window (⟨3, 4, fun i j => 10 * i + j⟩ : Arr Int) (some (2, 2)) (some (1, 3, 1, 4))).toOption.isNone = true := by decide
+
+/-- **`util.centroid` regenerated** (`Gen.centroid`: normalisation `img / np.sum(img)`, the grids of `np.mgrid[0:nr, 0:nc]`, which grid each
+`np.dot` pairs with the image and the order of the returned pair are re-translated from the source): the grid value of sample `(i, j)` is `i` in the
+first and `j` in the second returned component, and over any field the returned pair is (row numerator / total, column numerator / total) of
+`centroidNumK` — the quantities every centroid theorem of this file (and the default origin of C11) is stated about -/
+theorem centroid_regenerated {F : Type} [Field F] (a : Arr F) :
+    (∀ i j : Int, Gen.centroidGrid 0 i j = i ∧ Gen.centroidGrid 1 i j = j) ∧
+    centroidRC a = ((centroidNumK a).1 / (centroidNumK a).2.2, (centroidNumK a).2.1 / (centroidNumK a).2.2) := by
+  refine ⟨fun i j => ⟨by simp [Gen.centroidGrid], by simp [Gen.centroidGrid]⟩, ?_⟩
+  unfold centroidRC Gen.centroid centroidNumK Arr.total Gen.centroidWeight
+  simp only [sumRange_eq_sum, Gen.centroidGrid, zero_add, Int.cast_natCast, div_eq_mul_inv, ← mul_assoc, ← Finset.sum_mul]
+
+example : centroidRC (⟨2, 3, fun i j => if i = 0 ∨ j = 2 then 1 else 0⟩ : Arr ℚ) = (1 / 4, 5 / 4) := by decide +kernel
+
 /-! ## sub-array extraction -/
 
 /-- `subarray(a, (h, w), shift)` returns the `h × w` window whose sample `(i, j)` is the source sample at coordinate
